@@ -51,6 +51,20 @@ def run(ctx):
             n_changed += 1
         if not c["conserves"]:
             oracle_fail.append({"why": "visible content differs", "xml": it["xml"], "out": it["reply"]["v"], "visible_in": c["vis_in"], "visible_out": c["vis_out"], "locale": it["locale"], "lines": it["lines"]})
+    # shrink the first failures to small replays
+    for f in oracle_fail[:4]:
+        pre2 = [l for l in f["lines"] if l["op"] != "set_mathml"]
+        small = canon_run.shrink(f["xml"], canon_run.shrink_with(im, mo, pre2, lambda r, c: c is not None and not c["conserves"]), budget=250)
+        if small != f["xml"]:
+            f["shrunk_from"] = f["xml"][:300]
+            f["xml"] = small
+            f["lines"] = pre2 + [{"op": "set_mathml", "xml": small}]
+            r = im.run([{"op": "session"}] + f["lines"])[-1]
+            f["out"] = r.get("v")
+            inp, out = canon_run.xml_to_json(small), canon_run.xml_to_json(r.get("v") or "")
+            if inp and out:
+                c = mo.run([{"op": "canon_check", "inp": inp, "out": out}])[0].get("v") or {}
+                f["visible_in"], f["visible_out"] = c.get("vis_in"), c.get("vis_out")
     im.close()
     mo.close()
     ctx.coverage.update({
